@@ -331,26 +331,63 @@ def r5(ctx, cfg, R="C06.R5"):
             inverted_edge = e
         else:
             fine_edge = e
-    ok = inverted_edge is not None and not cf.can_reach(inverted_edge, rb)
-    ctx.ob(R, key, "inverted-bounds-never-reach-BTreeMap::range", ok, "the `start > end` edge reaches BTreeMap::range (which panics)", fn=f,
-           line=gt["line"], sample="true edge of start>end cannot reach range()")
-    # every path on which both bounds are finite passes the guard's false edge
-    exc = []
-    for bid in f.order:
-        t = f.blocks[bid]["term"]
-        if t["k"] == "switch" and "discr_of" in t and t.get("adt") == "std::ops::Bound":
-            for e, v, n, tb in cf.switch_edges(bid):
-                if n == "Excluded":
-                    conds = q.dominating_conditions(P, f, bid)
-                    if any(c[0] == "variant_in" and c[2] == ("Included",) for ee, c in conds):
-                        exc.append(e)
-    ok = len(exc) == 1 and fine_edge is not None and rb not in cf.reachable_from(exc[0], avoid=[fine_edge])
-    ctx.ob(R, key, "finite-bounds-always-checked", ok, "a path with (Included, Excluded) bounds reaches BTreeMap::range without the comparison",
+    # path enumeration (vlib/paths.py) with the edge of the guard as an event and bool temporaries (`matches!`, `let
+    # inverted = ..; if inverted`) resolved along each path: whatever the syntax of the guard,
+    #   - no path takes the `start > end` edge and then calls BTreeMap::range (which would panic),
+    #   - every path that takes it builds iter::empty(),
+    #   - every path on which both bounds are finite (Included, Excluded) evaluates the guard before calling range
+    from vlib.paths import decision_table
+
+    def classify(fn, bid, t):
+        if t.get("adt") != "std::ops::Bound":
+            return None
+        o = P.place(fn, t["discr_of"], (bid, "t"))
+        has_s = contains(o, lambda x: x[0] == "param" and x[2] == "start")
+        has_e = contains(o, lambda x: x[0] == "param" and x[2] == "end")
+        if has_s and not has_e:
+            return "lower"
+        if has_e and not has_s:
+            return "upper"
+        return None
+
+    def watch(fn, site, item):
+        bid, idx = site
+        if idx == "t" and item["k"] == "call":
+            k = item["callee"]["key"]
+            if k == "std::collections::BTreeMap::range":
+                return ("range",)
+            if k == "std::iter::empty":
+                return ("empty",)
+        return None
+
+    def edge_watch(fn, bid, ei):
+        if bid != gb:
+            return None
+        e = ("e", bid, ei)
+        return ("inverted",) if e == inverted_edge else ("in-order",)
+
+    names, table, seen = decision_table(f, {"lower": ["Included", "Unbounded"], "upper": ["Excluded", "Unbounded"]}, classify, watch, edge_watch=edge_watch)
+    li, ui = names.index("lower"), names.index("upper")
+    bad1, bad2, bad3, npaths = [], [], [], 0
+    for combo, seqs in table.items():
+        for s_ in seqs:
+            ev = [e for e in s_ if isinstance(e, tuple)]
+            npaths += 1
+            if ("inverted",) in ev and ("range",) in ev:
+                bad1.append(ev)
+            if ("inverted",) in ev and ("empty",) not in ev:
+                bad2.append(ev)
+            if combo[li] == "Included" and combo[ui] == "Excluded" and ("range",) in ev and \
+                    not (("in-order",) in ev and ev.index(("in-order",)) < ev.index(("range",))):
+                bad3.append(ev)
+    ctx.ob(R, key, "inverted-bounds-never-reach-BTreeMap::range", not bad1 and npaths > 0, "the `start > end` edge reaches BTreeMap::range (which panics): %s" % bad1[:1], fn=f,
+           line=gt["line"], sample="%d paths: none takes the start>end edge and calls range()" % npaths)
+    ctx.ob(R, key, "finite-bounds-always-checked", not bad3 and seen["lower"] >= 1 and seen["upper"] >= 1,
+           "a path with (Included, Excluded) bounds reaches BTreeMap::range without the comparison: %s (tracked switches %s)" % (bad3[:1], seen),
            fn=f, sample="(Included,Excluded) -> guard false edge -> range()")
-    # inverted bounds yield an empty local iterator
-    emp = q.calls(f, "std::iter::empty")
-    ok = len(emp) == 1 and cf.dominates(inverted_edge, emp[0][0]) if inverted_edge else False
-    ctx.ob(R, key, "inverted-bounds-give-empty-overlay", ok, "the inverted case does not produce iter::empty()", fn=f, sample="iter::empty()")
+    ctx.ob(R, key, "inverted-bounds-give-empty-overlay", not bad2 and len(q.calls(f, "std::iter::empty")) == 1, "the inverted case does not produce iter::empty(): %s" % bad2[:1], fn=f,
+           sample="iter::empty()")
+
 
 def r6(ctx, cfg, R="C06.R6"):
     F, P = cfg.facts, cfg.prov
@@ -366,26 +403,47 @@ def r6(ctx, cfg, R="C06.R6"):
                 return "cmp"
             return None
 
-        def watch(fn, site, item):
-            bid, idx = site
-            if idx == "t" and item["k"] == "call":
-                c = item["callee"]
-                a = P.call_args(fn, item, bid)
-                isret = item["dst"]["l"] == 0 and not item["dst"]["p"]
-                if c["key"].endswith("Ord::cmp") or c.get("trait") == "std::cmp::Ord":
-                    return ("cmp", _short(a[0]), _short(a[1]))
-                if c["key"] == T + "MergeOverlay::take_left":
-                    return ("take_left", "ret" if isret else "dropped")
-                if c["name"] == "next" and _self_field(a[0], "right"):
-                    return ("right.next", "ret" if isret else "dropped")
-                if c["name"] == "next" and _self_field(a[0], "left"):
-                    return ("left.next", "ret" if isret else "dropped")
-                if isret:
-                    return ("ret", "call:" + c["key"])
-                return None
-            return _ret_event(P, fn, site, item)
+        def watch_for(sigma):
+            # values are read under the cell's assumption on self.order, so that `let (a, b) = match order { Asc => (&l, &r),
+            # Desc => (&r, &l) }; a.cmp(b)` yields the operands of that order
+            Ps = P.assuming([(lambda o: _self_field(peel(o), "order"), sigma["order"])])
 
-        names, table, seen = decision_table(f, {"order": ["Ascending", "Descending"], "cmp": ["Less", "Equal", "Greater"]}, classify, watch)
+            def watch(fn, site, item):
+                bid, idx = site
+                if idx == "t" and item["k"] == "call":
+                    c = item["callee"]
+                    a = Ps.call_args(fn, item, bid)
+                    isret = item["dst"]["l"] == 0 and not item["dst"]["p"]
+                    if c["key"].endswith("Ord::cmp") or (c.get("trait") == "std::cmp::Ord" and c["name"] == "cmp"):
+                        return ("cmp", _short(a[0]), _short(a[1]))
+                    if c.get("trait") in ("std::cmp::PartialEq", "std::cmp::PartialOrd"):
+                        return None
+                    if c["key"] == T + "MergeOverlay::take_left":
+                        return ("take_left", "ret" if isret else "dropped")
+                    if c["name"] == "next" and _self_field(a[0], "right"):
+                        return ("right.next", "ret" if isret else "dropped")
+                    if c["name"] == "next" and _self_field(a[0], "left"):
+                        return ("left.next", "ret" if isret else "dropped")
+                    if isret:
+                        return ("ret", "call:" + c["key"])
+                    return None
+                return _ret_event(Ps, fn, site, item)
+            return watch
+
+        seen_bool = {"cmp": 0}
+
+        def decide(fn, bid, t, sigma):
+            """`ordering == Ordering::X` on the tracked comparison"""
+            pred, args, pol = q.norm_cond(P.operand(fn, t["discr"], (bid, "t")), True)
+            if pred == "eq" and len(args) == 2:
+                for x, y in (args, args[::-1]):
+                    if any(z[0] == "call" and z[1].endswith("Ord::cmp") for z in alts(peel(x))) and y[0] == "agg" and y[1].startswith("std::cmp::Ordering::"):
+                        seen_bool["cmp"] += 1
+                        return (sigma["cmp"] == y[1].rsplit("::", 1)[1]) == pol
+            return None
+
+        names, table, seen = decision_table(f, {"order": ["Ascending", "Descending"], "cmp": ["Less", "Equal", "Greater"]}, classify, None, decide=decide, watch_for=watch_for)
+        seen["cmp"] += seen_bool["cmp"]
         ctx.ob(R, key, "tracked-switches", seen["order"] >= 1 and seen["cmp"] >= 1, "pick_match does not branch on order and on the comparison: %s" % seen,
                fn=f, sample=str(seen))
         oi, ci = names.index("order"), names.index("cmp")
